@@ -263,6 +263,8 @@ def run(rep, ctx):
     with rep.guard("R18.9"):
         from . import c04 as _c04w
         _c04w.within_basis(rep, M, "R18.9")
+        _c04w.factors_times_cell(rep, M, "R18.9")
+        _c04w.both_directions_alike(rep, M, "R18.9")
     rep.rule("R18.10", "no function keeps results in module-level state or functools caches (answers do not depend on what the process analysed before)")
     with rep.guard("R18.10"):
         from .. import symrules as _SRms
